@@ -343,6 +343,22 @@ class _Canonical(ast.NodeTransformer):
 
     def visit_BoolOp(self, node):
         self.generic_visit(node)
+        # constant operands (left by inlined literals and defaults): `False or x` -> x, `True and x` -> x, `True or x` -> True,
+        # `False and x` -> False (x is not evaluated in the last two); a constant in a later position stays (the value of the
+        # expression is then the earlier operand's or the constant)
+        if any(isinstance(v, ast.Constant) and (v.value is None or isinstance(v.value, bool)) for v in node.values[:-1]):
+            vals = []
+            is_or = isinstance(node.op, ast.Or)
+            for i, v in enumerate(node.values):
+                if isinstance(v, ast.Constant) and (v.value is None or isinstance(v.value, bool)) and i < len(node.values) - 1:
+                    if bool(v.value) == is_or:
+                        vals.append(v)           # decides the expression: nothing after it is evaluated
+                        break
+                    continue                     # neutral element
+                vals.append(v)
+            if len(vals) == 1:
+                return ast.copy_location(vals[0], node)
+            node.values = vals
         # isinstance(o, A) or isinstance(o, B)  ->  isinstance(o, (A, B))
         if isinstance(node.op, ast.Or):
             def isi(v):
@@ -412,6 +428,14 @@ class _Canonical(ast.NodeTransformer):
             if len(parts) == 1:
                 return ast.copy_location(parts[0], node)
             return ast.copy_location(ast.BoolOp(op=ast.And() if isinstance(node.ops[0], ast.Eq) else ast.Or(), values=parts), node)
+        if len(node.ops) == 1 and isinstance(node.ops[0], (ast.Is, ast.IsNot)):
+            l_, r_ = node.left, node.comparators[0]
+            # identity of two literals None/True/False, or of a name with itself
+            if isinstance(l_, ast.Constant) and isinstance(r_, ast.Constant) and all(x.value is None or isinstance(x.value, bool) for x in (l_, r_)):
+                same = l_.value is r_.value
+                return ast.copy_location(ast.Constant(value=same if isinstance(node.ops[0], ast.Is) else not same), node)
+            if isinstance(l_, ast.Name) and isinstance(r_, ast.Name) and l_.id == r_.id:
+                return ast.copy_location(ast.Constant(value=isinstance(node.ops[0], ast.Is)), node)
         if len(node.ops) == 1 and type(node.ops[0]) in self._SWAP and _const_like(node.left) and not _const_like(node.comparators[0]):
             node.left, node.comparators, node.ops = node.comparators[0], [node.left], [self._SWAP[type(node.ops[0])]()]
         return node
@@ -865,6 +889,8 @@ def _pure_self_methods(tree: ast.Module) -> set:
     return pure
 
 
+_REPO_CALLS: dict = {"sites": {}, "bare": set()}
+_REPO_OBSERVATIONAL: set = set()  # whole package: attribute names nothing reads except to report them (effects.observational_attrs_of)
 _REPO_WRITES: dict = {}          # whole package: function/method name -> set of attribute names it may store (transitively, by name), or None = anything
 
 
@@ -901,6 +927,31 @@ def _repo_effects(pkg_dir: str, root: str, overlay) -> None:
         for c in ast.walk(t):
             if isinstance(c, ast.ClassDef):
                 classes.add(c.name)
+    # call sites by callee name (how many positional arguments, which keywords, any star), and names referenced without being
+    # called (handed on as callbacks): what specialise_unpassed_defaults needs to know that nobody in the package passes a parameter
+    global _REPO_CALLS
+    sites, bare = {}, set()
+    funcnames = {n.name for t in trees for n in ast.walk(t) if isinstance(n, ast.FunctionDef)} | classes
+    for t in trees:
+        callfuncs = set()
+        for c in ast.walk(t):
+            if isinstance(c, ast.Call):
+                callfuncs.add(id(c.func))
+                nm_ = c.func.attr if isinstance(c.func, ast.Attribute) else (c.func.id if isinstance(c.func, ast.Name) else None)
+                if nm_ is not None:
+                    sites.setdefault(nm_, []).append((len([a for a in c.args if not isinstance(a, ast.Starred)]), {k.arg for k in c.keywords if k.arg},
+                                                      any(isinstance(a, ast.Starred) for a in c.args) or any(k.arg is None for k in c.keywords)))
+        for x in ast.walk(t):
+            if id(x) in callfuncs:
+                continue
+            if isinstance(x, ast.Attribute) and isinstance(x.ctx, ast.Load) and x.attr in funcnames:
+                bare.add(x.attr)
+            elif isinstance(x, ast.Name) and isinstance(x.ctx, ast.Load) and x.id in funcnames:
+                bare.add(x.id)
+    _REPO_CALLS = {"sites": sites, "bare": bare}
+    global _REPO_OBSERVATIONAL
+    from .effects import observational_attrs_of
+    _REPO_OBSERVATIONAL = observational_attrs_of(trees)
     owner_of = {}
     for t in trees:
         for c in [n for n in ast.walk(t) if isinstance(n, ast.ClassDef)]:
@@ -2259,6 +2310,11 @@ def canonicalise(tree: ast.Module, rel: str = "") -> ast.Module:
                 break
         canon.rename_fresh_members(tree, ref)
         canon.unroll_fresh_generators(tree, ref)
+        if canon.specialise_unpassed_defaults(tree, ref, _REPO_CALLS):
+            tree = _Canonical().visit(tree)
+        if canon.drop_fresh_observational(tree, ref, _REPO_OBSERVATIONAL):
+            tree = _Canonical().visit(tree)
+        canon.drop_fresh_widening_guards(tree, ref)
         tree = _Canonical().visit(tree)
         canon.inline_fresh_helpers(tree, ref, protect_renames=True)
         canon.rename_fresh_members(tree, ref)
